@@ -28,7 +28,7 @@ func (c *notCond) check() error {
 
 func (c *notCond) string() string {
 	next := c.notC.string()
-	if strings.HasPrefix(next, "(") {
+	if strings.HasPrefix(next, "(") || strings.HasPrefix(next, "\"") {
 		return fmt.Sprintf("not %s", c.notC.string())
 	}
 	splitted := strings.Split(next, " ")
